@@ -74,6 +74,12 @@ check("C10",
       "FloodClause (non-overlap, positive length, coverage, per-label coverage, short gaps closed, long gaps intact, nothing new outside short gaps, input unchanged) is checked by TLC on a transcription "
       "of the pairwise walk with neighbour mutation and on every recorded call of the real flood over chains of up to 4 events, shuffled, pulsetimes 0..3 ticks.",
       "Trusted: as C09.", "TLA+ relational spec + TLC model checking of the algorithm transcription + TLC validation of recorded I/O", "DESIGN.md §6 C10")
+check("C14",
+      "spec/AwMigration.tla states FirstOpen(profile): the new store has the legacy store's buckets with equal metadata and the same events as a bag of values, nothing for a profile without a legacy file, and the "
+      "legacy file is untouched; TLC checks it on small stores. Real legacy peewee databases (unicode ids, data dicts, id gaps, duplicates, > 100 events, both profiles, other profile's file present) are built in a private "
+      "XDG_DATA_HOME in forked children, the default SQLite store is created beside them, and TLC judges the two dumps and the byte-equality flag.",
+      "Trusted: TLC; value interning as in C01; SHA-256 of the legacy database (+journal/WAL) before/after.",
+      "TLA+ spec + TLC model checking + TLC validation of recorded migrations", "DESIGN.md §6 C14")
 check("C15",
       "UnionNoOverlapClause (first list intact, pieces of each second-list event cover exactly its part not covered by the first list, no overlap, coverage = union, inputs unchanged) is checked by TLC on a "
       "transcription of the two-index merge and on every recorded call of the real union_no_overlap over all pairs of small sorted lists plus random 3-event lists.",
